@@ -858,6 +858,12 @@ def var_rules(P, R):
     if f:
         f = f[0]
         st = [s for s in f["body"][2] if T.is_node(s)]
+        # a leading `if (dest == src) return ...;` (copying a VAR onto itself keeps it, fix a049ee32) is not a store: the first statement that
+        # does anything to the destination must still be VarClear(dest)
+        while st and st[0][0] == "If" and not T.is_node(st[0][4]) and T.is_node(T.strip_casts(st[0][2])) and T.strip_casts(st[0][2])[0] == "Bin" \
+                and T.strip_casts(st[0][2])[2] == "==" and {param_name(T.strip_casts(st[0][2])[3]), param_name(T.strip_casts(st[0][2])[4])} == set(f["pnames"][:2]) \
+                and any(y[0] == "Return" for y in T.walk(st[0][3])) and not list(T.writes(st[0][3])):
+            st = st[1:]
         first_clear = bool(st) and st[0][0] == "Call" and T.callee_name(st[0]) == "VarClear" and param_name(st[0][4][0]) == f["pnames"][0]
         deep = any(T.callee_name(c) == "VarAllocString" for c in T.calls(f["body"]))
         if first_clear and deep:
